@@ -59,6 +59,7 @@ class Contract:
     raises: dict = field(default_factory=dict)  # exc class name -> SpecFn | None (condition over old state)
     loop_inv: dict = field(default_factory=dict)
     param_types: dict = field(default_factory=dict)
+    local_types: dict = field(default_factory=dict)
     ret_type: T.Ty | None = None
     inline: bool = False
     trusted: bool = False
@@ -93,6 +94,17 @@ class SpecSet:
         self._opaque_attrs: dict = {}
         self._module_fns: dict = {}
         self.handlers: dict = {}
+        # postconditions recorded as known findings are FALSE on the current tree: a caller must never assume them
+        self.unproved: set = set()
+        import json as _json
+        kf = os.path.join(os.path.dirname(os.path.dirname(os.path.abspath(__file__))), "KNOWN_FINDINGS.jsonl")
+        if os.path.exists(kf):
+            for ln in open(kf):
+                ln = ln.strip()
+                if ln and not ln.startswith("#"):
+                    d = _json.loads(ln)
+                    if d.get("kind") == "finding" and d.get("function") and d.get("clause"):
+                        self.unproved.add((d["function"], d["clause"]))
 
     # ---------------------------------------------------------------- load
     def load(self, path: str):
@@ -158,6 +170,8 @@ class SpecSet:
                     c.trusted = bool(v)
                 elif k == "param_types":
                     c.param_types = dict(v)
+                elif k == "local_types":
+                    c.local_types = dict(v)
                 elif k == "ret_type":
                     c.ret_type = v
                 elif k == "module":
@@ -197,6 +211,7 @@ class SpecSet:
                 return s
             if s.startswith("opaque:"):
                 return T.Opaque(s[7:])
+            s = s.replace("opaque:", "Opaque__")
             node = ast.parse(s, mode="eval").body
             # a type name is looked up in the module each spec file declares (MODULE = ...)
             cands = [m] if m else [x for x in dict.fromkeys(self.default_module.values()) if x] + [mod]
@@ -220,6 +235,8 @@ class SpecSet:
         for (tn, m_), spec in self.opaque_methods_src.items():
             d = dict(spec)
             d["ret"] = ty(d.get("ret", "None"))
+            if "arg_types" in d:
+                d["arg_types"] = [ty(a) for a in d["arg_types"]]
             self._opaque_methods[(tn, m_)] = d
         for (tn, a), s in self.opaque_attrs_src.items():
             self._opaque_attrs[(tn, a)] = ("field", ty(s))
@@ -230,6 +247,7 @@ class SpecSet:
         w.extra_subclass.update(self.extra_subclass)
         for c in self.contracts.values():
             c.param_types = {k: ty(v) for k, v in c.param_types.items()}
+            c.local_types = {k: ty(v) for k, v in c.local_types.items()}
             if c.ret_type is not None:
                 c.ret_type = ty(c.ret_type)
 
